@@ -103,19 +103,30 @@ func (p *VarHeaderPostprocessor) substr(args []string) (func(in string) string, 
 		}
 	}
 	return func(in string) string {
+		// the header value comes from the target: every index is clamped to its length
 		l := len(in)
-		if start < 0 {
-			start = l + start
+		from, to := start, end
+		if from < 0 {
+			from = l + from
 		}
-		if end <= 0 {
-			end = l + end
+		if to <= 0 {
+			to = l + to
 		}
-		if end > l {
-			end = l
+		if from < 0 {
+			from = 0
 		}
-		if start > end {
-			start, end = end, start
+		if from > l {
+			from = l
 		}
-		return in[start:end]
+		if to < 0 {
+			to = 0
+		}
+		if to > l {
+			to = l
+		}
+		if from > to {
+			from, to = to, from
+		}
+		return in[from:to]
 	}, nil
 }
